@@ -94,6 +94,20 @@ PROPS["C11"] = dict(
                  "the per-worker arc_swap::Cache and SIGUSR1 delivery are runtime"],
 )
 
+PROPS["C05"] = dict(
+    suites=[dict(name="validator", harness="validator", imports=["Validator"],
+                 case_type="N * list (string * N) * list (N * string * string * bool)",
+                 check="validator_code", monitor=None, count_quick=300, count_thorough=20000, nontrivial_bits=3, shrink=False)],
+    rule="real ConnectionValidator with the clock override (hook H2): max_connection_age in {0,1,59,60,61,120,2^31,2^32-2,2^32-1}, ids issued "
+         "by the implementation at edge/random times for 6 addresses of both families, then queried at issue time, at t0+age-1 / t0+age / "
+         "t0+age+1, at t0-59/-60/-61, at 2^32-1 and at random clocks, from the same and from other addresses, plus a third of all single-bit "
+         "alterations, 4 double-bit alterations, a forged id and a far-future id per issued id; the keyed hash is read back from the "
+         "implementation as a table which must be injective; non-trivial = the case has both accepted and rejected queries",
+    modelled="validator.rs create_connection_id / connection_id_valid (Validator.v); BLAKE3 is a Section variable",
+    assumptions=["BLAKE3 keyed-hash strength, key secrecy, 2^-32 guessing chance: cryptographic assumptions", "constant-time comparison and the "
+                 "clock refresh cadence (every 256 polls) are runtime"],
+)
+
 LEVELS = {
     "C01": dict(
         text="Refinement theorem (Coq, induction over all finite histories, all offsets, any inline capacity): the sequential model of "
@@ -140,6 +154,14 @@ LEVELS["C11"] = dict(
          "entries untouched (udp, http, ws); tied to the code through the real update_access_list on generated files and the storages' clean.",
     design_ref="DESIGN.md §7 C11", technique="Coq theorems over the file grammar and the clean step + in-Coq correspondence",
     note="Trusted: Coq kernel, models, harness. Partial: Unicode white space / UTF-8 validation of std, arc_swap cache, signal delivery.")
+
+LEVELS["C05"] = dict(
+    text="Theorems for every keyed-hash function, every time, age (0..2^32-1) and address: exact acceptance window; the accepted strings are "
+         "exactly the ids create issues for that address in the window; acceptance from another address forces a 32-bit hash collision; the "
+         "hash input determines time and address; far-future and age-0 rejection; no u64 wrap. Tied to the code by running the real validator "
+         "under a controlled clock with the hash observed as a table.",
+    design_ref="DESIGN.md §7 C05", technique="Coq iff-characterisation for all MAC functions + in-Coq correspondence with observed MAC table",
+    note="Trusted: Coq kernel, model, harness, hook H2. Cryptographic strength of BLAKE3 is assumed, not proved.")
 
 NOT_APPLICABLE = [
     dict(property_id=p, reason="check not built yet in this round (work in progress; planned per DESIGN.md §10)")
